@@ -73,8 +73,10 @@ def run(run):
     # helpers on real objects + model
     mysql_types, hashmap = c18.tables()
     hcases = []
-    for _ in range(120 if tier_q else 2500):
-        hcases.append((c18.gen_ddl(run.rng, mysql_types), c18.gen_ops(run.rng)))
+    for _ in range(60 if tier_q else 1200):
+        ddl = c18.gen_ddl(run.rng, mysql_types)
+        for _ in range(run.rng.choice([2, 3])):      # several histories on structurally equal receivers, one after the other in one process
+            hcases.append((ddl, c18.gen_ops(run.rng)))
     reqs_h = ["HELPERS %s %s" % (",".join(ops) or "-", stmt.cps(t)) for t, ops in hcases]
     mo_h = core.run_model(reqs_h)
     im_h = core.run_impl(reqs_h)
